@@ -53,6 +53,12 @@ CLAIMED["C08"] = {
     "note": "trusts: stdlib strftime-free integer rendering + locale data tables as reference; formats are generated with literal separators so tokenisation is unambiguous; ordinal tokens (Do, Mo, ...) and LT..LLLL are decided by L1 and the round trip only; zone-name formats are not asserted for repeated wall times (a name cannot carry the occurrence)",
 }
 
+CLAIMED["C01"] = {
+    "text": "Seeded search over interleavings of in_tz/in_timezone, astimezone, from_timestamp, instance() of aware natives (zoneinfo, pytz, dateutil, datetime.timezone), timezone(int|str), parse with offsets and the timestamp accessors, with clients racing on a cold fixed-offset cache, zone-cache clears by the nemesis and restarts between dependent ops, in both helper backends. Every result must equal the cold single-threaded re-execution, denote the source instant to the microsecond, report the requested zone and carry the fields and offset the standard library's tz database assigns to that instant; chains A->B->C are judged against A->C, and int_timestamp/timestamp() must invert from_timestamp().",
+    "ref": "DESIGN.md §5 C01",
+    "note": "trusts: stdlib zoneinfo + tzdata package as reference; the instant of a foreign aware datetime is taken from its own tzinfo; pytz sources restricted to whole-minute offsets (pytz rounds LMT offsets)",
+}
+
 NOT_APPLICABLE = {
     "C03": "pure function of its arguments and immutable zone data: no clock, shared mutable slot, configuration or I/O in add/subtract with fixed units; nothing for a scheduler or fault injector to vary",
     "C04": "pure function of its arguments (calendar arithmetic + construction rules); Duration fields it reads are written once in __new__; no schedule, clock or fault dependence",
@@ -72,10 +78,10 @@ ALL = ["C%02d" % i for i in range(1, 21)]
 
 # designed as simulation targets (DESIGN.md §5) but whose check is not registered yet
 PENDING = {p: "simulation target per DESIGN.md §5, check still under construction in this commit (not claimed yet)"
-           for p in ("C01",)}
+           for p in ()}
 
 FIX_COMMITS = ["0cac821 (C09 lazy-slot race)", "c2f908d (previous() never terminates across a skipped calendar day; C12/C16)",
-               "2c83944 (next() drifts to 01:00 after a skipped midnight; C16)", "6249586 (C12 week configuration read twice)", "1273e62 (C16 first_of/last_of depend on calendar.setfirstweekday())", "9fab684 (C02 mock local zone read twice)", "fc92ad3 (C06 precise_diff full-month shortcut, Python + Rust)", "b63f456 (Interval.__init__ dropped endpoint fold; C18)", "a0e6037 (zh before/after templates; C18)", "5ef6d18 (nl week_data misplaced; C18)", "89fb712 (Rust ordinal dates on month ends; C08)", "ab5eca4 (z token regex; C08)", "77c9f3a (from_format escaped literals; C08)", "7d62906 (Do token without ordinal data; C08)"]
+               "2c83944 (next() drifts to 01:00 after a skipped midnight; C16)", "6249586 (C12 week configuration read twice)", "1273e62 (C16 first_of/last_of depend on calendar.setfirstweekday())", "9fab684 (C02 mock local zone read twice)", "fc92ad3 (C06 precise_diff full-month shortcut, Python + Rust)", "b63f456 (Interval.__init__ dropped endpoint fold; C18)", "a0e6037 (zh before/after templates; C18)", "5ef6d18 (nl week_data misplaced; C18)", "89fb712 (Rust ordinal dates on month ends; C08)", "ab5eca4 (z token regex; C08)", "77c9f3a (from_format escaped literals; C08)", "7d62906 + 71470da (Do token in from_format; C08)", "a8ba9ca (instance() of pytz second-pass datetimes; C01)", "df3000b (instance() of pytz.FixedOffset; C01)"]
 
 
 def main():
